@@ -35,7 +35,8 @@ void orc_timeout_result(int f, uint32_t due, bool r);
 void orc_pass_begin(int i, uint32_t t);
 void orc_pass_end(int i, uint32_t t, uint32_t wake, int self);
 void orc_main_call(int act, int begin, int result);
-void orc_ra(int f, bool ok);				/* interrupt side: fibre_run_atomic returned */
+void orc_ra_begin(int f, int who);
+void orc_ra(int f, bool ok, int who);				/* interrupt side: fibre_run_atomic returned */
 void orc_ev_claim_begin(int who);
 void orc_ev_claimed(uint8_t v, int slot, int who);		/* interrupt side: claim returned (slot < 0: refused) */
 void orc_ev_send_begin(int slot);
@@ -43,6 +44,7 @@ void orc_ev_sent(int slot, bool ok);			/* interrupt side: fibre_eventq_send retu
 void orc_queue_problem(const char *what);
 int orc_events_all_free(void);	/* no event sits in the event queue (sent or claimed) as far as the ghost knows */
 void c6_check_quiescent_queues(int evq_too);
+int c6_kernel_sched_field(size_t off);
 int orc_undecided(void);		/* a request that may or may not still be queued (raced with a drain or a kill) */
 int orc_more_settle(void);
 int orc_events_all_free(void);	/* no event sits in the event queue (sent or claimed) as far as the ghost knows */				/* 1 while the ghost state says something is still runnable */
